@@ -149,7 +149,7 @@ func init() {
 		},
 	}
 	Props["C19"] = PropDef{
-		Explanation: "R-SCHEMA; R-ORDER (stable sort, dispatch order and its callers, compression switch on both ends, offline UUID origin, drain-before-close); R-POOL; R-LENPREFIX; R-ERRFLOW; R-ERRAS errors.As target form; R-POOL put-after-retain; sorted insertion (sort.Search) accepted with a strict predicate; R-TLG over package bot (a received packet id indexes the handler table only inside both bounds); R-NILMAP maps in struct fields exist where a handler assigns into them; R-POOL handler-keeps-buffer (a handler does not queue a packet around the received pooled buffer); R-ERRFLOW a goroutine that gives up on an I/O error keeps it. Decided: For each gate packet the receiver scans a prefix of what the sender marshals; both ends switch compression at the same frame for every threshold value; handler tables are kept in descending priority with ties in registration order (stable sort or strict sorted insertion); dispatch stops at the first error in every caller; queued packets survive Close; packet buffers are not recycled under a queued or retained packet; errors.As looks for the form in which the module creates the error; string lengths are byte lengths. The bot's own dispatch indexes its per-id table only with ids inside it, and maps a packet handler assigns into are made by the constructor. A handler does not queue a packet around the received pooled buffer. One known finding (registry-data layout). Join completion is not decided.",
+		Explanation: "R-SCHEMA; R-ORDER (stable sort, dispatch order and its callers, compression switch on both ends, offline UUID origin, drain-before-close); R-POOL; R-LENPREFIX; R-ERRFLOW; R-ERRAS errors.As target form; R-POOL put-after-retain; sorted insertion (sort.Search) accepted with a strict predicate; R-TLG over package bot (a received packet id indexes the handler table only inside both bounds); R-NILMAP maps in struct fields exist where a handler assigns into them; R-POOL handler-keeps-buffer (a handler does not queue a packet around the received pooled buffer); R-ERRFLOW a goroutine that gives up on an I/O error keeps it; R-SCHEMA reply-is-read; R-ORDER queue-before-stored-error, sort after every append. Decided: For each gate packet the receiver scans a prefix of what the sender marshals; both ends switch compression at the same frame for every threshold value; handler tables are kept in descending priority with ties in registration order (stable sort or strict sorted insertion); dispatch stops at the first error in every caller; queued packets survive Close; packet buffers are not recycled under a queued or retained packet; errors.As looks for the form in which the module creates the error; string lengths are byte lengths. The bot's own dispatch indexes its per-id table only with ids inside it, and maps a packet handler assigns into are made by the constructor. A handler does not queue a packet around the received pooled buffer. One known finding (registry-data layout). Join completion is not decided.",
 		Run: func(c *Ctx) []core.Ob {
 			obs := c.Schema()
 			obs = append(obs, c.HandlerSort()...)
